@@ -460,6 +460,11 @@ def _try_inline(caller, st, cands, counter):
     for p, arg in bound.items():
         if p not in stored and _is_simple(arg):
             exprs[p] = arg
+        elif isinstance(st, ast.Return) and holder is None and isinstance(arg, ast.Name) \
+                and sum(1 for a_ in bound.values() for x in ast.walk(a_) if isinstance(x, ast.Name) and x.id == arg.id) == 1:
+            # `return self._h(x)` where the helper re-binds its parameter: the caller's x is dead after the call, so the helper's
+            # parameter simply IS the caller's x (this undoes the extraction exactly, no copy `p = x` is needed)
+            names[p] = arg.id
         else:
             names[p] = p + tag
             pre.append(ast.copy_location(ast.Assign(targets=[ast.Name(id=p + tag, ctx=ast.Store())], value=_clone(arg), lineno=st.lineno), st))
